@@ -242,9 +242,18 @@ def result_ordering(ctx):
             if rev or (isinstance(s.func, ast.Attribute) and s.func.attr == "reverse"):
                 bad.append(f"`{norm(s, 50)}` reverses the order")
                 continue
+            kbody = None
             if isinstance(key, ast.Lambda) and len(key.args.args) == 1:
-                a = key.args.args[0].arg
-                body = key.body
+                kbody = (key.args.args[0].arg, key.body)
+            elif isinstance(key, ast.Name):
+                tg = ctx.res.resolve_name(key.id, f)
+                if tg and hasattr(tg[0], "node") and not isinstance(tg[0].node, ast.Lambda) \
+                        and len(tg[0].params()) == 1:
+                    krets = [r for r in walk_local(tg[0].node) if isinstance(r, ast.Return)]
+                    if len(krets) == 1 and krets[0].value is not None:
+                        kbody = (tg[0].params()[0], krets[0].value)
+            if kbody is not None:
+                a, body = kbody
                 last = body.elts[-1] if isinstance(body, ast.Tuple) and body.elts else body
                 if norm(last) == f"{a}.time":
                     firsts = body.elts[:-1] if isinstance(body, ast.Tuple) else []
